@@ -372,30 +372,61 @@ Qed.
 (* location level, both directions, every source: what `composed` reports for a parser error (token byte span read as
    character offsets) is the location of the characters at those byte offsets IFF the text before the end of the span
    is ASCII.  Otherwise it is the assert panic or a different (line, column). *)
-(* ------------------------------------------------------------ composed (byte span -> character span, once) *)
+(* ------------------------------------------------------------ composed (byte span -> character span, once, totally) *)
+Lemma chars_before_le s : forall b, chars_before s b <= length s.
+Proof.
+  induction s as [|c s IH]; intro b; cbn [chars_before length]; [lia|].
+  destruct (Nat.eqb b 0); [lia|]. specialize (IH (b - utf8_len c)). lia.
+Qed.
+
+Lemma chars_before_mono s : forall a b, a <= b -> chars_before s a <= chars_before s b.
+Proof.
+  induction s as [|c s IH]; intros a b H; cbn [chars_before]; [lia|].
+  destruct (Nat.eqb_spec a 0); [lia|]. destruct (Nat.eqb_spec b 0); [lia|].
+  specialize (IH (a - utf8_len c) (b - utf8_len c)). lia.
+Qed.
+
+(* on a character boundary it is the character offset *)
+Lemma chars_before_byte_of_char s : forall k, k <= length s -> chars_before s (byte_of_char s k) = k.
+Proof.
+  induction s as [|c s IH]; intros k Hk; cbn [length] in Hk.
+  - assert (k = 0) by lia. subst. reflexivity.
+  - destruct k as [|k]; [reflexivity|]. rewrite byte_of_char_S. cbn [chars_before].
+    pose proof (utf8_len_bounds c). destruct (Nat.eqb_spec (utf8_len c + byte_of_char s k) 0); [lia|].
+    replace (utf8_len c + byte_of_char s k - utf8_len c) with (byte_of_char s k) by lia. rewrite IH by lia. reflexivity.
+Qed.
+
 Lemma span_to_chars_bytes s bs be sid cs ce :
   cs <= length s -> ce <= length s -> byte_of_char s cs = bs -> byte_of_char s ce = be ->
   span_to_chars s (Span bs be sid) = Span cs ce sid.
 Proof.
-  intros Hcs Hce Es Ee. unfold span_to_chars, to_char. cbn [sp_start sp_end sp_src].
-  rewrite <- Es, <- Ee, !char_of_byte_of_char by assumption. reflexivity.
+  intros Hcs Hce Es Ee. unfold span_to_chars. cbn [sp_start sp_end sp_src].
+  rewrite <- Es, <- Ee, !chars_before_byte_of_char by assumption. reflexivity.
 Qed.
 
 Lemma span_to_chars_src s sp : sp_src (span_to_chars s sp) = sp_src sp.
-Proof. unfold span_to_chars. destruct (to_char s (sp_start sp)); [destruct (to_char s (sp_end sp))|]; reflexivity. Qed.
+Proof. reflexivity. Qed.
 
-(* `composed` panics exactly when the converted span is past the character length (the assert) or reversed (ariadne) *)
+(* `composed` panics exactly when the converted span is reversed (ariadne's Label assert); the location assert cannot
+   fire: the converted offsets are at most the character length *)
 Theorem composed_one_panics_iff s sp :
   composed_one [(sp_src sp, s)] (Some sp) = Panic <->
-  (let sp' := span_to_chars s sp in length s < sp_start sp' \/ length s < sp_end sp' \/ sp_end sp' < sp_start sp').
+  chars_before s (sp_end sp) < chars_before s (sp_start sp).
 Proof.
-  unfold composed_one. cbn [find fst]. rewrite Nat.eqb_refl. cbv zeta. set (sp' := span_to_chars s sp).
-  pose proof (compose_location_none s sp') as N.
-  destruct (compose_location s sp') as [l|].
-  - destruct (Nat.ltb_spec (sp_end sp') (sp_start sp')); split; intro H0; try reflexivity; try discriminate.
-    + tauto.
-    + destruct H0 as [H0|[H0|H0]]; [| |lia]; (assert (Some l = None) as X by (apply N; tauto); discriminate).
-  - split; intro H0; [|reflexivity]. assert (length s < sp_start sp' \/ length s < sp_end sp') by (apply N; reflexivity). tauto.
+  unfold composed_one. cbn [find fst]. rewrite Nat.eqb_refl.
+  rewrite location_is_position_lemma by (unfold span_to_chars; cbn [sp_start sp_end]; apply chars_before_le).
+  unfold span_to_chars. cbn [sp_start sp_end].
+  destruct (Nat.ltb_spec (chars_before s (sp_end sp)) (chars_before s (sp_start sp))); split; intro H0;
+    try reflexivity; try discriminate; lia.
+Qed.
+
+(* FULL STRENGTH: no span whose start is not after its end makes `composed` panic, whatever its unit or size *)
+Theorem composed_one_total tree sp : sp_start sp <= sp_end sp -> composed_one tree (Some sp) <> Panic.
+Proof.
+  intros H. unfold composed_one. destruct (find (fun p => Nat.eqb (fst p) (sp_src sp)) tree) as [[k s]|]; [|discriminate].
+  rewrite location_is_position_lemma by (unfold span_to_chars; cbn [sp_start sp_end]; apply chars_before_le).
+  unfold span_to_chars. cbn [sp_start sp_end]. pose proof (chars_before_mono s _ _ H).
+  destruct (Nat.ltb_spec (chars_before s (sp_end sp)) (chars_before s (sp_start sp))); [lia | discriminate].
 Qed.
 
 (* a span that `composed` leaves on a message is the conversion of the one it had, names a file of the tree, has
@@ -450,21 +481,11 @@ Proof.
   destruct (Nat.ltb_spec ce cs); [lia | reflexivity].
 Qed.
 
-(* never a panic for a span that is ordered and inside the character length, whatever its unit (used by C12) *)
+(* kept for C12: the in-bounds hypotheses are no longer needed *)
 Theorem composed_one_total_in_bounds s sp :
   sp_start sp <= sp_end sp -> sp_start sp <= length s -> sp_end sp <= length s ->
   composed_one [(sp_src sp, s)] (Some sp) <> Panic.
-Proof.
-  intros H0 H1 H2 E. apply composed_one_panics_iff in E. cbv zeta in E. unfold span_to_chars, to_char in E.
-  destruct (char_of_byte s (sp_start sp)) as [cs| |] eqn:Cs; [|cbn [sp_start sp_end] in E; lia..].
-  destruct (char_of_byte s (sp_end sp)) as [ce| |] eqn:Ce; [|cbn [sp_start sp_end] in E; lia..].
-  cbn [sp_start sp_end] in E.
-  pose proof (char_of_byte_le _ _ _ Cs). pose proof (char_of_byte_le _ _ _ Ce).
-  pose proof (char_of_byte_ret _ _ _ Cs) as [Ls Es]. pose proof (char_of_byte_ret _ _ _ Ce) as [Le Ee].
-  assert (cs <= ce).
-  { destruct (Nat.le_gt_cases cs ce) as [|Hgt]; [assumption|]. pose proof (byte_of_char_strict s ce cs Hgt Ls). lia. }
-  lia.
-Qed.
+Proof. intros H _ _. apply composed_one_total; assumption. Qed.
 
 (* FULL STRENGTH (true since d3106b1; before, false behind non-ASCII text: finding F9): a parser error over tokens i..j is
    reported without a panic as the CHARACTER span of the text from the start of token i to the end of token j-1, with the
